@@ -2,7 +2,7 @@
 
 """
 
-from bisect import bisect_left
+from bisect import bisect_right
 from collections import deque
 from collections.abc import Callable
 
@@ -49,13 +49,14 @@ class InversionMethod(Sampling):
         simulated_state_increments = self._simulated_state_increments
         state_increment = None
 
-        if u > (s := cum_probabilities[-1]):
+        # state x is returned for u in [C_{x-1}, C_x): a state of probability zero is never returned (u = 0 included)
+        if u >= (s := cum_probabilities[-1]):
             x = len(cum_probabilities) - 1
             project_index_to_state_increment = (
                 self.state_manager.project_index_to_state_increment
             )
             probability_to_jump_to_state = self.probability_to_jump_to_state
-            while u > s:
+            while u >= s:
                 x += 1
                 state_increment, break_here = project_index_to_state_increment(
                     x, self._max_storage
@@ -69,7 +70,7 @@ class InversionMethod(Sampling):
                         cum_probabilities.append(s)
                         simulated_state_increments.append(state_increment)
         else:
-            x = bisect_left(cum_probabilities, u)
+            x = bisect_right(cum_probabilities, u)
             state_increment = simulated_state_increments[x]
 
         return state_increment
